@@ -134,7 +134,7 @@ ItemAnalytic(it, x) ==
 (* the grammar, grown production by production *)
 Starts == {1, 2}
 Shifts == {1, 2}          \* trans by +1, +2 and by -1 (below)
-Exps == {2, 3}
+Exps == {0, 1, 2, 3}      \* 0 and 1: the power is the constant 1 / the base itself, also where the base vanishes
 
 VARIABLES tree,     \* the definition under construction
           level,    \* 0: a bare leaf; 1: a modifier / multi-range over leaves; 2: one slot refined once more
